@@ -16,20 +16,33 @@ META = {
     'explanation': 'The real geodepy/angles.py is executed through the instrumented importer in the F-model: every Python float is an exact IEEE-754 '
                    'double (integer mantissa variable, concrete exponent; each rounding a linear integer constraint, forks on result binades), '
                    'f-strings / slicing / float(text) are decimal-text objects (digit extraction = div/mod by powers of ten), divmod and round are '
-                   'exact. Inputs: every double of a binade chunk, or the double nearest to q/10^13 for an integer q with valid (or invalid) '
+                   'exact. Inputs: every double of a magnitude chunk, or the double nearest to q/10^13 for an integer q with valid (or invalid) '
                    'minute/second fields. Per function the solver (QF_LIA portfolio) decides: no exception for valid input, exception for invalid '
-                   'HP, result fields in range, result denotes the input angle within 1e-8 arc-seconds with the same sign, produced HP values '
-                   'are valid 13-decimal HP. unsat on a chunk = holds for EVERY double in the chunk; sat = a concrete double, replayed on the '
-                   'un-instrumented module with exact rational arithmetic.',
-    'functions': ['geodepy.angles.HPAngle.__init__', 'hp2dec', 'dec2hp', 'hp2dms', 'hp2ddm', 'dec2dms', 'dec2ddm', 'dec2gon', 'gon2dec',
-                  'DMSAngle.dec/hp/ddm', 'DDMAngle.dec/hp/dms', 'DECAngle/HPAngle/GONAngle method delegation'],
-    'bounds': {'magnitudes': 'quick: [0.25, 720) deg, whole-arc-second lattice for HP inputs; thorough: [2^-20, 720), all 13-decimal HP values',
-               'chunks': 'one chunk per binade below 32 deg, 4..16 deg chunks above', 'sign': 'positive inputs on every chunk, negative inputs on representative chunks'},
-    'outside': ['radians()/degrees() (libm) and therefore the rad notation', 'vectorised variants dec2hp_v / hp2dec_v (numpy element-wise code paths are not encoded)',
-                'negative zero, NaN, infinities', 'chains of length > 1 are covered by composing the per-function claims (each produced value lies in the '
-                'accepted input set of the next function, each step moves the angle by far less than 1e-8")'],
+                   'HP, result denotes the input angle within 2.5e-9 arc-seconds with the same sign (non-negative fields, sign in the flag), '
+                   'produced HP values read as valid 13-decimal HP. unsat on a chunk = holds for EVERY double of the chunk; sat = a concrete '
+                   'double, replayed on the un-instrumented module with exact rational arithmetic. dec2hp: two lemma queries per path (the '
+                   '13-decimal reading of the result is the decimal text parsed; its digit groups are the fields) are proved first and then used as '
+                   'facts. DMSAngle/DDMAngle.hp(): dec2hp is a callee summary, the argument handed to it is proved within tolerance (its contract '
+                   'is the dec2hp obligations). Wiring group (R-model): each of the 14 wrapper functions and every object method of the five '
+                   'classes equals the composition source -> decimal degrees -> target of the leaf conversions (hp2dec/dec2hp uninterpreted).',
+    'functions': ['geodepy.angles.HPAngle.__init__', 'hp2dec', 'dec2hp', 'dec2dms', 'dec2ddm', 'dec2gon', 'gon2dec', 'DMSAngle.dec/hp/ddm', 'DDMAngle.dec/hp/dms',
+                  'dec2hpa dec2gona hp2deca hp2rad hp2gon hp2gona hp2dms hp2ddm gon2deca gon2hp gon2hpa gon2rad gon2dms gon2ddm (wiring)',
+                  'rad/dec/deca/hp/hpa/gon/gona/dms/ddm methods of DECAngle, HPAngle, GONAngle, DMSAngle, DDMAngle (wiring)'],
+    'bounds': {'magnitudes': 'quick: chunks of [0.25, 720) deg - every binade below 8 deg, every fourth 4-degree chunk above (rotating with VERIF_SEED; first and '
+                             'last chunk of each binade and the chunks around 512 deg always), whole-arc-second lattice for HP inputs; thorough: all 201 chunks '
+                             'of [2^-20, 720) deg and all 13-decimal HP values',
+               'HPAngle constructor': 'an eighth (quick) / a quarter (thorough) of the chunks (it delegates to hp2dec, proved on all of them)',
+               'objects': 'degrees 0..510, minutes 0..59 symbolic integers; seconds / decimal minutes every double of [0.25,0.5), [1,2), [4,8), [32,60)',
+               'sign': 'positive inputs on every chunk, negative inputs on every seventh chunk; negative DMS/DDM objects in the wiring group',
+               'solver timeout': '40 s (quick) / 300 s (thorough) per query'},
+    'outside': ['radians()/degrees() (libm): the rad notation is covered by wiring only', 'vectorised variants dec2hp_v / hp2dec_v (numpy element-wise code paths)',
+                'negative zero, NaN, infinities, magnitudes below 2^-20 deg (quick: below 0.25 deg)',
+                'chains of conversions as such: they follow from the per-function claims (each produced value lies in the accepted input set of the next '
+                'function; 4 x 2.5e-9 = 1e-8 arc-seconds)', 'field ranges of DMS/DDM results (minute or second may read 60.0): the property bounds the angle, '
+                'not the fields', 'HP values of magnitude 512..720: known findings (double spacing above 1e-13)'],
     'assumptions': ['CPython float divmod by a positive integer constant is exact (fmod exact, quotient < 2^53)', 'round(x, n) and "%.nf" formatting round the '
-                    'exact binary value half-even (correctly rounded dtoa)', 'float(decimal text) is correctly rounded'],
+                    'exact binary value half-even (correctly rounded dtoa)', 'float(decimal text) is correctly rounded',
+                    'callee summaries: dec2hp inside DMSAngle.hp()/DDMAngle.hp(); hp2dec/dec2hp in the wiring group'],
 }
 _A = [None]
 
